@@ -151,9 +151,12 @@ example : (∀ e ∈ (validateX Xxp Cxp {} tXpBadMust).errs, e.kind ∈ violatio
 `when` resolution is MODELLED (LyModel/Valid/XpWhen.lean: `whenPhase` — the `do … while` loop of `lyd_validate_unres` over
 `lyd_validate_unres_when`, set processed from the end, `LYD_WHEN_TRUE`, implicit nodes with a false `when` auto-deleted, explicit ones
 `NoWhen`, `LY_EINCOMPLETE` deferral; termination: `rounds_fuel`) and compared with libyang by the check (family `fam_xpath`, mutation
-`flip-when`, directed instances `when-implicit`).  Proved about it so far: what it can log and what it can change.
--- OPEN: `validate_ok_iff_valid_xpath` with `when` (the specification of RFC 7950 §7.21.5 — a node whose `when` is false must not exist, its
--- defaults are not in use, the accessible tree of every other expression does not contain it — against the fixpoint loop).
+`flip-when`, directed instances `when-implicit`, law `when-iff` through the model op `specw`).  Proved about it: what it can log and what
+it can change (below), and the iff / error-tag theorems on the class without deferral for runs that remove no implicit node
+(`validate_ok_iff_valid_when_partial`, `validate_ok_iff_valid_when_decidable`, `validate_error_tag_when_partial`).
+-- OPEN: the iff for instances on which an implicit node with a false `when` is removed (RFC 7950 §7.21.5 / §8.3.2: its default is not in
+-- use and the accessible tree of every other expression does not contain it: a specification-side fixpoint, and a frame lemma for the
+-- XPath engine), and for `when` expressions that reach other `when`-carrying nodes (the deferral order of the loop).
 -/
 
 /-- **`when_errors_kind`** (every schema, `when` table, option set and tree): the `when` phase logs only `NoWhen` errors ("When
